@@ -163,4 +163,7 @@ def gen_chunks(rng, rows: List, max_init: Optional[int] = None) -> Tuple[List, L
             m = rng.randint(1, max(1, len(rest)))
         chunks.append(rest[i:i + m])
         i += m
+    if chunks and rng.random() < 0.12:
+        # an append of nothing is an append too
+        chunks.insert(rng.randrange(len(chunks) + 1), [])
     return init, chunks
